@@ -884,7 +884,28 @@ impl Campaign for C13 {
                             obs::Ev::State { txid, result, delta, .. } if *txid == i => Some((result.clone(), delta.clone())),
                             _ => None,
                         });
-                        if let (Some((want_result, want_delta)), Some((got_result, got_delta))) = (twin, &committed) {
+                        // From Amsterdam on (EIP-8037) stock revm does not charge a reverted frame the
+                        // state gas of the state growth it discards, while grevm's synthetic revert
+                        // keeps the full gas of the attempted execution. The property pins the nonce
+                        // bump, the authorisation effects and refund and the discarding of execution
+                        // state, not this amount, so there the twin is compared on those only.
+                        let state_gas_fork = case.spec.is_enabled_in(SpecId::AMSTERDAM);
+                        if let (Some((want_result, want_delta)), Some((got_result, got_delta))) = (twin, &committed) &&
+                            state_gas_fork
+                        {
+                            rep.bump("reserve_violations_checked_against_twin_without_gas_amounts", 1);
+                            let strip = |d: &crate::compare::CanonDelta| -> Vec<(Address, crate::compare::DeltaKind, u64, revm_primitives::B256, Vec<(U256, (U256, U256))>)> {
+                                d.iter().map(|(a, x)| (*a, x.kind.clone(), x.nonce, x.code_hash, x.slots.iter().map(|(k, v)| (*k, *v)).collect())).collect()
+                            };
+                            let kind_ok = matches!((want_result, got_result), (ExecutionResult::Revert { output: a, .. }, ExecutionResult::Revert { output: b, .. }) if a == b);
+                            if !kind_ok || strip(want_delta) != strip(got_delta) {
+                                violations.push(vio(
+                                    "RSV",
+                                    "C13",
+                                    format!("tx {i}: reserve violation by {source}: apart from gas amounts and balances, the state kept by the charged revert (touched accounts, nonces, code, storage) differs from stock revm reverting the same execution at its very end: expected {:?}, committed {:?}", strip(want_delta), strip(got_delta)),
+                                ));
+                            }
+                        } else if let (Some((want_result, want_delta)), Some((got_result, got_delta))) = (twin, &committed) {
                             rep.bump("reserve_violations_checked_against_forced_revert_twin", 1);
                             if want_result != got_result {
                                 violations.push(vio(
